@@ -99,7 +99,36 @@ type slot struct {
 	idx    int    // element index
 }
 
-func collectSlots(v any, out *[]slot) {
+func collectSlots(v any, out *[]slot) { collectSlotsDepth(v, out, 0) }
+
+func collectSlotsDepth(v any, out *[]slot, depth int) {
+	if depth > 3000 {
+		desc := ""
+		cur := v
+		for i := 0; i < 8; i++ {
+			switch x := cur.(type) {
+			case map[string]any:
+				ks := sortedKeysAny(x)
+				desc += fmt.Sprintf(" map%q@%p", ks, x)
+				if len(ks) == 0 {
+					i = 99
+					break
+				}
+				cur = x[ks[0]]
+			case []any:
+				desc += fmt.Sprintf(" slice[%d]@%p", len(x), x)
+				if len(x) == 0 {
+					i = 99
+					break
+				}
+				cur = x[0]
+			default:
+				desc += fmt.Sprintf(" leaf(%T)", x)
+				i = 99
+			}
+		}
+		panic("harness: value nested deeper than 3000 levels (cyclic structure?):" + desc)
+	}
 	switch x := v.(type) {
 	case map[string]any:
 		keys := make([]string, 0, len(x))
@@ -109,12 +138,12 @@ func collectSlots(v any, out *[]slot) {
 		sort.Strings(keys)
 		for _, k := range keys {
 			*out = append(*out, slot{parent: x, key: k})
-			collectSlots(x[k], out)
+			collectSlotsDepth(x[k], out, depth+1)
 		}
 	case []any:
 		for i := range x {
 			*out = append(*out, slot{parent: x, idx: i})
-			collectSlots(x[i], out)
+			collectSlotsDepth(x[i], out, depth+1)
 		}
 	}
 }
@@ -167,9 +196,9 @@ var replacements = []func(t *rapid.T, old any) any{
 	func(t *rapid.T, old any) any { return map[string]any{"a": nil} },
 	func(t *rapid.T, old any) any { return Raw(extremeNumbers[Uniform(t, "extreme", len(extremeNumbers))]) },
 	func(t *rapid.T, old any) any {
-		return map[string]any{"$ref": oddRefs[Uniform(t, "oddref", len(oddRefs))]}
+		return map[string]any{"$ref": copyTree(oddRefs[Uniform(t, "oddref", len(oddRefs))])} // (copy: the pool holds containers; a later mutation must not reach into package-level state)
 	},
-	func(t *rapid.T, old any) any { return oddRefs[Uniform(t, "oddrefv", len(oddRefs))] },
+	func(t *rapid.T, old any) any { return copyTree(oddRefs[Uniform(t, "oddrefv", len(oddRefs))]) },
 	func(t *rapid.T, old any) any { // type swap
 		switch x := old.(type) {
 		case map[string]any:
@@ -226,6 +255,12 @@ func Mutate(t *rapid.T, v any) (any, MutationInfo) {
 	b, _ := json.Marshal(v)
 	_ = json.Unmarshal(b, &c)
 	var info MutationInfo
+	var trace []string
+	defer func() {
+		if r := recover(); r != nil {
+			panic(fmt.Sprintf("%v; mutation trace: %v", r, trace))
+		}
+	}()
 	n := 1 + Uniform(t, "nmut", 3)
 	for i := 0; i < n; i++ {
 		var slots []slot
@@ -238,7 +273,9 @@ func Mutate(t *rapid.T, v any) (any, MutationInfo) {
 		}
 		s := slots[Uniform(t, "slot", len(slots))]
 		m, isMember := s.parent.(map[string]any)
-		switch op := Uniform(t, "mutop", 10); {
+		op := Uniform(t, "mutop", 10)
+		trace = append(trace, fmt.Sprintf("op=%d key=%q idx=%d nslots=%d", op, s.key, s.idx, len(slots)))
+		switch {
 		case op == 0 && isMember: // duplicate the member with another value
 			if !strings.HasPrefix(s.key, dupPrefix) {
 				m[dupPrefix+s.key] = replacements[Uniform(t, "duprepl", len(replacements))](t, copyTree(s.get()))
